@@ -126,7 +126,12 @@ def build(job):
         script['add_at'] = [m_idx + 1]
     if job['stop']:
         script['sl'] = 0.5 * (1 / lev - 0.004) if lev > 1 else 0.4
-    if job.get('resting_tps'):
+    if job.get('partial_tp') and job.get('close_mode') == 'recover_profit' and pattern != 'gap_jump' and job.get('mode') != 'spot':
+        # the deciding minute first wicks to the liquidation level and then recovers through a take-profit for half of the
+        # position (close = entry +-0.2 %, rows at +-0.15 % and +-0.225 %): the position is still open after the matching and
+        # the minute's range contains the liquidation price, although the rest of the minute after the fill does not
+        script['tp'], script['tp_points'] = 0.0015, 2
+    elif job.get('resting_tps') and job.get('mode') != 'spot':   # (a spot holding of 17 digits cannot be split into exact rows)
         # a ladder of take-profits far on the winning side: they rest (and must be cancelled) while the position is liquidated
         script['tp'], script['tp_points'] = 0.2, job['resting_tps']
     return arr, script, {'entry': entry_eff, 'liq': liq, 'bankr': bankr, 'q1': q1}
@@ -300,6 +305,6 @@ def make_jobs(tier, seed):
                          'stop': stop, 'fast': fast, 'mode': mode, 'averaged': rng.random() < 0.3,
                          'tf': rng.choice(['1m', '1m', '5m']), 'fee': rng.choice([0, 0.0005, 0.001]),
                          'close_mode': rng.choice(['half', 'half', 'recover_profit', 'at_extreme']),
-                         'resting_tps': rng.choice([0, 0, 3, 4])})
+                         'resting_tps': rng.choice([0, 0, 3, 4]), 'partial_tp': rng.random() < 0.5})
             i += 1
     return jobs
